@@ -15,6 +15,10 @@ PEDAL_DEVELOPERS = ["Austin Cory Bart <acbart@udel.edu>",
                     "Luke Gusukuma <lukesg08@vt.edu>"]
 
 
+#: Marks an overridden class attribute that the class itself did not define
+_INHERITED = object()
+
+
 class FeedbackRegistry:
     def __init__(self):
         self._registered_feedback = {}
@@ -469,19 +473,27 @@ class Feedback:
 
     @classmethod
     def override(cls, report=MAIN_REPORT, **fields):
-        if cls._override_backups is None:
+        # The backups belong to this exact class: a dictionary inherited from
+        # a parent class must not be shared with it.
+        if cls.__dict__.get('_override_backups') is None:
             cls._override_backups = {}
         for field, new_value in fields.items():
             if field not in cls._override_backups:
-                cls._override_backups[field] = getattr(cls, field)
+                # Remember whether the class had its own value or inherited it
+                cls._override_backups[field] = cls.__dict__.get(field, _INHERITED)
             setattr(cls, field, new_value)
         report.override_feedback(cls)
 
     @classmethod
     def _restore_overrides(cls):
-        for field, old_value in cls._override_backups.items():
-            setattr(cls, field, old_value)
-        cls._override_backups.clear()
+        backups = cls.__dict__.get('_override_backups') or {}
+        for field, old_value in backups.items():
+            if old_value is _INHERITED:
+                if field in cls.__dict__:
+                    delattr(cls, field)
+            else:
+                setattr(cls, field, old_value)
+        backups.clear()
 
 
     @classmethod
